@@ -230,7 +230,18 @@ Definition handle_read (s : state) (i : nat) (data : list Z) : state :=
     let s := set s i (with_rbuf c (rbuf c ++ data)) in
     process (S (length (rbuf c ++ data))) s i.
 
-Inductive op := Connect | Send (i : nat) (data : list Z) | Disconnect (i : nat).
+(* Bulk i n seed: a bridged client sends n bytes (byte k is 128 + (seed + 7 k) mod 128) while its partner does not read, and
+   the partner reads everything afterwards; what is observed at the partner is a digest of what arrived: the number of bytes
+   (4 bytes, big endian) and the sum of (k + 1) * byte k modulo 2^32 (4 bytes).  In the model the digest of the bytes sent
+   stands for the bytes themselves (a bridge forwards whatever it is given): the correspondence check then says that under
+   back-pressure the partner still receives exactly the n bytes, in order.  Outside a bridge the action is not performed. *)
+Definition bulk_step (seed : Z) (ka : Z * Z) : Z * Z :=
+  let '(k, acc) := ka in (k + 1, (acc + (k + 1) * (128 + (seed + 7 * k) mod 128)) mod 4294967296).
+Definition be4 (v : Z) : list Z := [v / 16777216 mod 256; v / 65536 mod 256; v / 256 mod 256; v mod 256].
+Definition bulk_digest (n seed : Z) : list Z :=
+  let '(k, acc) := N.iter (Z.to_N n) (bulk_step seed) (0, 0) in be4 k ++ be4 acc.
+
+Inductive op := Connect | Send (i : nat) (data : list Z) | Disconnect (i : nat) | Bulk (i : nat) (n seed : Z).
 
 (* what reaches the clients: every live session's write buffer is flushed; a closed session's is discarded *)
 Definition deliver (s : state) : state * list (list Z) :=
@@ -242,52 +253,45 @@ Definition step (s : state) (o : op) : state * list (list Z) :=
   | Connect => deliver (mkState (clients s ++ [fresh]) (reg s) (hung s))
   | Send i data => deliver (handle_read s i data)
   | Disconnect i => deliver (close_session s i)
+  | Bulk i n seed =>
+      if alive (get s i) && (st (get s i) =? Bridged) then deliver (handle_read s i (bulk_digest n seed)) else deliver s
   end.
 
 (* ---- wire ----
-   input: ops  0 | 1 i len bytes | 2 i
+   input: ops  0 | 1 i len bytes | 2 i | 3 i n seed
    output per op: the number of clients n, then for each client: len bytes delivered to it by this op, 1/0 its session is
    still open; then the number of open sessions, the number of registry entries, and 1 if the server hung; at the end, after
    every client has left: the number of open sessions and of registry entries *)
 Definition count_alive (s : state) : Z := zlen (filter alive (clients s)).
 
-Fixpoint run_wire (fuel : nat) (s : state) (l : list Z) : list Z :=
+Definition read_op (l : list Z) : op * list Z :=
+  let '(code, l) := w_next l in
+  if code =? 0 then (Connect, l)
+  else if code =? 1 then let '(i, l) := w_next l in let '(d, l) := w_bytes l in (Send (Z.to_nat i) d, l)
+  else if code =? 3 then let '(i, l) := w_next l in let '(n, l) := w_next l in let '(sd, l) := w_next l in (Bulk (Z.to_nat i) n sd, l)
+  else let '(i, l) := w_next l in (Disconnect (Z.to_nat i), l).
+
+(* the outputs of every action, and the state at the end *)
+Fixpoint run_wire (fuel : nat) (s : state) (l : list Z) : list Z * state :=
   match fuel with
-  | O => []
+  | O => ([], s)
   | S f =>
       match l with
-      | [] => []
+      | [] => ([], s)
       | _ =>
-          let '(code, l) := w_next l in
-          let '(o, l) :=
-            if code =? 0 then (Connect, l)
-            else if code =? 1 then let '(i, l) := w_next l in let '(d, l) := w_bytes l in (Send (Z.to_nat i) d, l)
-            else let '(i, l) := w_next l in (Disconnect (Z.to_nat i), l) in
+          let '(o, l) := read_op l in
           let '(s', outs) := step s o in
-          [zlen outs] ++ flat_map (fun e => o_bytes (fst e) ++ [o_bool (alive (snd e))]) (combine outs (clients s'))
-          ++ [count_alive s'; zlen (reg s'); o_bool (hung s')] ++ run_wire f s' l
+          let '(rest, sf) := run_wire f s' l in
+          ([zlen outs] ++ flat_map (fun e => o_bytes (fst e) ++ [o_bool (alive (snd e))]) (combine outs (clients s'))
+           ++ [count_alive s'; zlen (reg s'); o_bool (hung s')] ++ rest, sf)
       end
   end.
 
-(* the state after the history, and after every client that is still connected has left (in order of connection) *)
-Fixpoint play (fuel : nat) (s : state) (l : list Z) : state :=
-  match fuel with
-  | O => s
-  | S f =>
-      match l with
-      | [] => s
-      | _ =>
-          let '(code, l) := w_next l in
-          let '(o, l) :=
-            if code =? 0 then (Connect, l)
-            else if code =? 1 then let '(i, l) := w_next l in let '(d, l) := w_bytes l in (Send (Z.to_nat i) d, l)
-            else let '(i, l) := w_next l in (Disconnect (Z.to_nat i), l) in
-          play f (fst (step s o)) l
-      end
-  end.
+(* after the history every client that is still connected leaves (in order of connection) *)
 Definition everyone_leaves (s : state) : state :=
   fold_left (fun s i => fst (step s (Disconnect i))) (seq 0 (length (clients s))) s.
 
 Definition run (input : list Z) : list Z :=
-  let s := everyone_leaves (play (length input) init input) in
-  run_wire (length input) init input ++ [count_alive s; zlen (reg s)].
+  let '(outs, sf) := run_wire (length input) init input in
+  let s := everyone_leaves sf in
+  outs ++ [count_alive s; zlen (reg s)].
